@@ -98,6 +98,10 @@ def method(eng, p, o, name, args, kws):
             return [(p, wrap(eng, Select(a, n - 1), kind))]
     if k == 'slist':
         s, kind = c[1], c[2]
+        if name == 'pop' and not args:
+            eng.oblige(p, 'pop.nonempty', Length(s) > 0, 'pre')
+            p.heap[o.oid] = ('slist', SubSeq(s, 0, Length(s) - 1), kind)
+            return [(p, elem_wrap(eng, s[Length(s) - 1], kind))]
         if name == 'append':
             p.heap[o.oid] = ('slist', Concat(s, Unit(elem_term(eng, p, args[0], kind))), kind); return [(p, None)]
         if name == 'clear':
